@@ -204,11 +204,11 @@ ASSUME Periodic ==
         /\ SubSeq(all, 1, 2 * Len(ut)) = ut \o ShiftToks(ut, Len(u))
 
 PrefToks(idx) == LongC(idx) * Len(LexAll(LongU(idx)))
-ExpPrefixTok(t, u, jj) ==
+ExpPrefixTok(t, u, jj) ==    \* (e is a bound variable so that TLC computes kind, position and length once)
     LET ut == LexAll(u)
         q  == (jj - 1) \div Len(ut)
         tk == ut[((jj - 1) % Len(ut)) + 1]
-    IN MkTok(t, tk.k, q * Len(u) + tk.p, tk.n)
+    IN CHOOSE x \in {MkTok(t, e[1], e[2], e[3]) : e \in {<<tk.k, q * Len(u) + tk.p, tk.n>>}} : TRUE
 
 ---------------------------------------------------------------------------
 IsLong == Universe = "long"
